@@ -503,7 +503,7 @@ def _prepass(model, modname, fn, s, loop):
 
 
 def extract_unescape(model, modname='zincparser', fnname='_unescape'):
-    fn = model.func(modname, fnname)
+    fn = model.func(modname, fnname, 'nested')
     a = [x.arg for x in fn.args.args]
     if len(a) != 2:
         raise Unsupported('%s signature changed' % fnname)
